@@ -64,6 +64,15 @@ def files(ctx: Ctx):
             d['opts']['max_length'] = L
             d['opts']['min_length'] = L - 1
     designs += [gen.gen_cdna(ctx.rng, {}) for _ in range(n // 10)]
+    # a second, unannotated contig with a different sequence and a targeton at the coordinates of the first contig's: nothing of the first
+    # contig (custom variants, PAM edits) may reach its records
+    for d in designs[:n]:
+        if ctx.rng.random() < 0.15 and d['mode'] == 'sge':
+            t0 = d['targetons'][0]
+            d['extra_contigs'] = {'chr2': gen.rand_dna(ctx.rng, len(d['ref']))}
+            d['targetons'].append(dict(t0, contig='chr2', action=['', ctx.rng.choice(['snv', '1del', 'snv, 1del', '2del0']), ''], sgrna=[]))
+            for f in d.get('vcfs') or []:
+                f['records'] = [r for r in f['records'] if r.get('contig', d['contig']) == d['contig']]
     # with background variants (SNVs anywhere, indels in non-coding sequence, upstream of and inside the targetons): the PAM VCF is read
     # through the liftover
     bfocus = dict(focus, p_bg=1.0, p_mask=0.2, bg_upstream=True, bg_kinds=['snv', 'ins', 'ins', 'del', 'del', 'mnv'], p_custom=0.8)
